@@ -513,6 +513,11 @@ class AIOKafkaClient:
         """
         partitions = self.cluster.partitions_for_topic(topic)
         if partitions is not None:
+            # Keep the topic tracked. As soon as any topic is tracked, metadata
+            # updates only ask for the tracked ones; a topic that was known
+            # from an earlier "all topics" update would silently drop out of
+            # the metadata, with its accepted batches left without a leader.
+            self._topics.add(topic)
             return partitions
 
         # add topic to metadata topic list if it is not there already.
